@@ -9,6 +9,15 @@
   `shutdown()` is eleven atomic actions and is NOT atomic with respect to the worker and the sweeper: the accounting
   theorems (C05, C01) carry the hypothesis `b.g.shutting = false`; `layerB_accounting_void_after_shutdown` and
   `layerB_negative_after_shutdown` are reachable states showing that they fail without it.
+
+  Multi-key reads (`Req.mget ks iter`: `multi_get` and the two iterators; positions `.mgetStore` / `.mgetPool`, `mgetNext`):
+    * C02  `C02_layerB_mget_store`, `C02_layerB_mget_pool` (the two actions per key), `C02_layerB_mread_current` (one
+           key, whatever happens between its two actions), `C02_layerB_mget_current` (the WHOLE call along any history
+           `RunH`: every value returned at position `j` was the value of an alive entry of `ks[j]` at that key's own
+           `store.get` action — `MgetHit`; invariant `MgetInv`), witness `C02_layerB_mget_current_witness`;
+    * C13  `refusal (.mget _ _) = .values []` (`C13_layerB_refuses`, `C13_layerB_mget_refused`),
+           `C13_layerB_mget_after_flag` (what `mgetNext` does once the flag is set: `multi_get` pads with `None`s, the
+           iterators stop), `C13_layerB_mget_store_after_flag`, `C13_layerB_mget_pool_after_flag`.
 -/
 import CachedProofs.LayerB.Inv
 
@@ -722,6 +731,8 @@ theorem soft_ctrans {b b' : BState} {i : Nat} (h : CTrans b i b') : SoftStep b.g
   case getPool hp => rw [poolAdd_frame hp]; exact SoftStep.refl _
   case refPool hp => rw [poolAdd_frame hp]; exact SoftStep.refl _
   case shutLocal hg => rw [hg]; exact SoftStep.refl _
+  case mgetStep hg => rw [hg]; exact SoftStep.refl _
+  case mgetFin hg => rw [hg]; exact SoftStep.refl _
   case shutStoreClear => exact fun _ _ _ _ => Or.inl rfl
   case delMark k hpc _ =>
     simp only [setClient]
@@ -919,6 +930,404 @@ theorem C02_layerB_read_current {b0 b1 b2 b3 : BState} {i k : Nat} {o0 o1 o2 o3 
     apply hbusy
     rw [hcl, List.getElem?_set_self hlt]
 
+/-! ### multi-key reads (`multi_get`, `multi_get_iterator`, `multi_get_map_iterator`)
+
+  Each key of a multi-key read goes through the same two actions as a `get`: `store.get` (position
+  `.mgetStore k ks acc iter`) and, on a hit, `pool.add` (position `.mgetPool k v ks acc iter`); `acc` holds the results
+  of the keys already done, `ks` the keys still to come.  Between the two actions — and between two keys — any other
+  thread may run. -/
+
+/-- moving on to the next key touches no shared state -/
+@[simp] theorem mgetNext_g (b : BState) (i : Nat) (ks : List Nat) (acc : List (Option Nat)) (iter : Bool) :
+    (mgetNext b i ks acc iter).g = b.g := by
+  unfold mgetNext
+  split
+  · rfl
+  · split <;> rfl
+
+/-- no key left: the call returns the results gathered -/
+theorem mgetNext_nil (b : BState) (i : Nat) (acc : List (Option Nat)) (iter : Bool) :
+    mgetNext b i [] acc iter = finishCall b i (.values acc) := rfl
+
+/-- a key left and the flag not set: on to that key's `store.get`, the results so far carried along unchanged -/
+theorem mgetNext_cons {b : BState} (i k : Nat) (rest : List Nat) (acc : List (Option Nat)) (iter : Bool)
+    (hs : b.g.shutting = false) :
+    mgetNext b i (k :: rest) acc iter = setClient b i (.mgetStore k rest acc iter) := by
+  simp [mgetNext, hs]
+
+/-- The `store.get` action for key `k` of a multi-key read: a hit moves on to `pool.add` carrying the value of the
+    CURRENT, alive entry of `k` (results so far and keys to come unchanged); a miss records `none` for `k` and moves on
+    to the next key.  The store itself is not changed, no oracle value is consumed. -/
+theorem C02_layerB_mget_store {b b' : BState} {i k : Nat} {ks : List Nat} {acc : List (Option Nat)} {iter : Bool}
+    {o o' : Oracle} (hpc : b.cl[i]? = some (.mgetStore k ks acc iter)) (h : clientAct b i o = .ok (b', o')) :
+    ((∃ e, b.g.store.get? k = some e ∧ e.alive b.g.now = true ∧
+        b'.cl = b.cl.set i (.mgetPool k e.value ks acc iter) ∧ b'.res = b.res) ∨
+     ((∀ e, b.g.store.get? k = some e → e.alive b.g.now = false) ∧
+        b' = mgetNext { b with g := { b.g with stats := { b.g.stats with misses := b.g.stats.misses + 1 } } } i ks
+               (acc ++ [none]) iter)) ∧
+    b'.g.store = b.g.store ∧ o' = o := by
+  unfold clientAct at h
+  simp only [hpc] at h
+  split at h
+  · rename_i e he
+    split at h
+    · rename_i ha
+      simp only [Except.ok.injEq, Prod.mk.injEq] at h; obtain ⟨rfl, rfl⟩ := h
+      exact ⟨Or.inl ⟨e, he, ha, rfl, rfl⟩, rfl, rfl⟩
+    · rename_i ha
+      simp only [Except.ok.injEq, Prod.mk.injEq] at h; obtain ⟨rfl, rfl⟩ := h
+      refine ⟨Or.inr ⟨?_, rfl⟩, by rw [mgetNext_g], rfl⟩
+      intro e' he'
+      rw [he] at he'; cases he'
+      simpa using ha
+  · rename_i he
+    simp only [Except.ok.injEq, Prod.mk.injEq] at h; obtain ⟨rfl, rfl⟩ := h
+    refine ⟨Or.inr ⟨?_, rfl⟩, by rw [mgetNext_g], rfl⟩
+    intro e' he'
+    rw [he] at he'; cases he'
+
+/-- The `pool.add` action for the hit on `k`: exactly the value picked up at `store.get` is appended to the results,
+    then the read moves on to its next key (or returns). -/
+theorem C02_layerB_mget_pool {b b' : BState} {i k v : Nat} {ks : List Nat} {acc : List (Option Nat)} {iter : Bool}
+    {o o' : Oracle} (hpc : b.cl[i]? = some (.mgetPool k v ks acc iter)) (h : clientAct b i o = .ok (b', o')) :
+    ∃ g1, poolAdd b.g (b.g.cfg.hashOf k) o = .ok (g1, o') ∧
+      b' = mgetNext { b with g := g1 } i ks (acc ++ [some v]) iter := by
+  unfold clientAct at h
+  simp only [hpc] at h
+  split at h
+  · rename_i g1 o1 hp
+    simp only [Except.ok.injEq, Prod.mk.injEq] at h; obtain ⟨rfl, rfl⟩ := h
+    exact ⟨g1, hp, rfl⟩
+  · cases h
+
+/-- C02 at action granularity, one key of a multi-key read: the value recorded for key `k` — appended to the results
+    by the `pool.add` action — is the value of the entry that the store held for `k`, and that was alive, at the
+    instant of that key's `store.get` action; whatever the other threads did in between. -/
+theorem C02_layerB_mread_current {b0 b1 b2 b3 : BState} {i k : Nat} {ks : List Nat} {acc : List (Option Nat)}
+    {iter : Bool} {o0 o1 o2 o3 : Oracle}
+    (hpc : b0.cl[i]? = some (.mgetStore k ks acc iter)) (hget : clientAct b0 i o0 = .ok (b1, o1))
+    (hsame : b2.cl[i]? = b1.cl[i]?)      -- whatever the other threads did in between (`other_threads_keep_pc`)
+    (hpool : clientAct b2 i o2 = .ok (b3, o3))
+    (hhit : ∃ v, b1.cl[i]? = some (.mgetPool k v ks acc iter)) :   -- the lookup was a hit
+    ∃ e g1, b0.g.store.get? k = some e ∧ e.alive b0.g.now = true ∧
+      b1.cl[i]? = some (.mgetPool k e.value ks acc iter) ∧
+      poolAdd b2.g (b2.g.cfg.hashOf k) o2 = .ok (g1, o3) ∧
+      b3 = mgetNext { b2 with g := g1 } i ks (acc ++ [some e.value]) iter := by
+  have hlt : i < b0.cl.length := by
+    rcases Nat.lt_or_ge i b0.cl.length with h | h
+    · exact h
+    · rw [List.getElem?_eq_none h] at hpc; cases hpc
+  rcases (C02_layerB_mget_store hpc hget).1 with ⟨e, he, ha, hcl, _⟩ | ⟨_, rfl⟩
+  · have h1 : b1.cl[i]? = some (.mgetPool k e.value ks acc iter) := by
+      rw [hcl, List.getElem?_set_self hlt]
+    have h2 : b2.cl[i]? = some (.mgetPool k e.value ks acc iter) := by rw [hsame, h1]
+    obtain ⟨g1, hp, hb3⟩ := C02_layerB_mget_pool h2 hpool
+    exact ⟨e, g1, he, ha, h1, hp, hb3⟩
+  · exfalso
+    obtain ⟨v, hv⟩ := hhit
+    rcases mgetNext_spec { b0 with g := { b0.g with stats := { b0.g.stats with misses := b0.g.stats.misses + 1 } } } i ks
+      (acc ++ [none]) iter with ⟨out, e⟩ | ⟨k', rest, _, _, e⟩
+    · rw [e] at hv
+      simp only [finishCall, List.getElem?_set_self hlt] at hv
+      cases hv
+    · rw [e] at hv
+      simp only [setClient, List.getElem?_set_self hlt] at hv
+      cases hv
+
+/-! #### the whole multi-key call, along any interleaving -/
+
+theorem sweepNext_res (b : BState) (n s : Nat) (r : List (Nat × Nat)) : (sweepNext b n s r).res = b.res := by
+  unfold sweepNext; split <;> rfl
+
+theorem wtrans_res {b b' : BState} (h : WTrans b b') : b'.res = b.res := by
+  cases h <;> rfl
+
+theorem strans_res {b b' : BState} (h : STrans b b') : b'.res = b.res := by
+  cases h <;> simp only [sweepNext_res]
+
+/-- a client action records at most the result of that client's call -/
+theorem ctrans_res {b b' : BState} {j : Nat} (h : CTrans b j b') :
+    b'.res = b.res ∨ ∃ out, b'.res = b.res.set j (out :: b.res.getD j []) := by
+  cases h
+  case upAfterSame id uw old new hpc =>
+    rcases upAfterIndex_spec b j id uw with ⟨_, h⟩ | ⟨_, _, h⟩ | h <;> rw [h]
+    · exact Or.inr ⟨_, rfl⟩
+    · exact Or.inl rfl
+    · exact Or.inr ⟨_, rfl⟩
+  case upAfterPut pc id e uw _ _ _ =>
+    rcases upAfterIndex_spec { b with g := ttlPut b.g id e } j id uw with ⟨_, h⟩ | ⟨_, _, h⟩ | h <;> rw [h]
+    · exact Or.inr ⟨_, rfl⟩
+    · exact Or.inl rfl
+    · exact Or.inr ⟨_, rfl⟩
+  case upAfterDelete id e uw _ _ =>
+    rcases upAfterIndex_spec { b with g := ttlDelete b.g id e } j id uw with ⟨_, h⟩ | ⟨_, _, h⟩ | h <;> rw [h]
+    · exact Or.inr ⟨_, rfl⟩
+    · exact Or.inl rfl
+    · exact Or.inr ⟨_, rfl⟩
+  all_goals first
+    | exact Or.inl rfl
+    | exact Or.inr ⟨_, rfl⟩
+
+/-- nobody but client `i` records a result for client `i` -/
+theorem other_threads_keep_res {b b' : BState} {a : Act} {o o' : Oracle} {i : Nat}
+    (h : stepB b a o = .ok (b', o')) (h1 : a ≠ .client i) : b'.res[i]? = b.res[i]? := by
+  cases a with
+  | issue j r =>
+    simp only [stepB] at h
+    split at h
+    · rename_i b1 hi
+      simp only [Except.ok.injEq, Prod.mk.injEq] at h; obtain ⟨rfl, rfl⟩ := h
+      unfold issue at hi
+      split at hi
+      · simp only [Except.ok.injEq] at hi; subst hi; rfl
+      · cases hi
+    · cases h
+  | client j =>
+    have hne : j ≠ i := by intro e; subst e; exact h1 rfl
+    rcases ctrans_res (clientAct_trans h) with e | ⟨out, e⟩
+    · rw [e]
+    · rw [e, List.getElem?_set_ne hne]
+  | worker => rw [wtrans_res (workerAct_trans h)]
+  | sweeper v =>
+    simp only [stepB] at h
+    split at h
+    · rename_i b1 hs'
+      simp only [Except.ok.injEq, Prod.mk.injEq] at h; obtain ⟨rfl, rfl⟩ := h
+      rw [strans_res (sweeperAct_trans hs')]
+    · cases h
+  | consumer =>
+    simp only [stepB] at h
+    split at h
+    · simp only [Except.ok.injEq, Prod.mk.injEq] at h; obtain ⟨rfl, rfl⟩ := h
+      rfl
+    · cases h
+  | advance d =>
+    simp only [stepB, Except.ok.injEq, Prod.mk.injEq] at h; obtain ⟨rfl, rfl⟩ := h
+    rfl
+
+/-- a run of Layer B together with its history: the pairs (state before the action, action), latest first -/
+inductive RunH : BState → List (BState × Act) → BState → Prop where
+  | nil (b : BState) : RunH b [] b
+  | step {b0 b b' : BState} {h : List (BState × Act)} {a : Act} {o o' : Oracle} :
+      RunH b0 h b → stepB b a o = .ok (b', o') → RunH b0 ((b, a) :: h) b'
+
+/-- in the history `h` client `i` did the `store.get` action of the `j`-th key `k` of its multi-key read (`j` results
+    gathered before it), and at that instant the store held for `k` an alive entry with value `v` -/
+def MgetHit (h : List (BState × Act)) (i j k v : Nat) : Prop :=
+  ∃ p ∈ h, p.2 = .client i ∧ ∃ ks acc iter, p.1.cl[i]? = some (.mgetStore k ks acc iter) ∧ acc.length = j ∧
+    ∃ e, p.1.g.store.get? k = some e ∧ e.alive p.1.g.now = true ∧ e.value = v
+
+/-- every value among the results `acc` is justified by a `store.get` hit in the history, for the key at the same
+    position -/
+def AccOk (h : List (BState × Act)) (i : Nat) (ks : List Nat) (acc : List (Option Nat)) : Prop :=
+  ∀ j v, acc[j]? = some (some v) → ∃ k, ks[j]? = some k ∧ MgetHit h i j k v
+
+theorem MgetHit.mono {h : List (BState × Act)} {i j k v : Nat} (p : BState × Act) (hh : MgetHit h i j k v) :
+    MgetHit (p :: h) i j k v := by
+  obtain ⟨q, hq, rest⟩ := hh
+  exact ⟨q, List.mem_cons_of_mem _ hq, rest⟩
+
+theorem AccOk.mono {h : List (BState × Act)} {i : Nat} {ks : List Nat} {acc : List (Option Nat)} (p : BState × Act)
+    (hh : AccOk h i ks acc) : AccOk (p :: h) i ks acc := by
+  intro j v hj
+  obtain ⟨k, hk, hm⟩ := hh j v hj
+  exact ⟨k, hk, hm.mono p⟩
+
+theorem AccOk.nil (h : List (BState × Act)) (i : Nat) (ks : List Nat) : AccOk h i ks [] := by
+  intro j v hj; simp at hj
+
+theorem AccOk.append_nones {h : List (BState × Act)} {i : Nat} {ks : List Nat} {acc : List (Option Nat)}
+    (hh : AccOk h i ks acc) (l : List Nat) : AccOk h i ks (acc ++ l.map (fun _ => none)) := by
+  intro j v hj
+  by_cases hlt : j < acc.length
+  · rw [List.getElem?_append_left hlt] at hj
+    exact hh j v hj
+  · rw [List.getElem?_append_right (by omega), List.getElem?_map] at hj
+    cases hx : l[j - acc.length]? <;> simp [hx] at hj
+
+theorem AccOk.snoc_none {h : List (BState × Act)} {i : Nat} {ks : List Nat} {acc : List (Option Nat)}
+    (hh : AccOk h i ks acc) : AccOk h i ks (acc ++ [none]) := by
+  have := hh.append_nones [0]
+  simpa using this
+
+/-- the position invariant of one multi-key read `mget ks iter` of client `i` (`r0`: the results client `i` had
+    recorded before the call) -/
+def MgetInv (h : List (BState × Act)) (i : Nat) (ks : List Nat) (iter : Bool) (r0 : List Out)
+    (pc : Option CPc) (ri : Option (List Out)) : Prop :=
+  match pc with
+  | some (.start (.mget ks' it)) => ks' = ks ∧ it = iter ∧ ri = some r0
+  | some (.mgetStore k rest acc it) =>
+    it = iter ∧ ri = some r0 ∧ ks.drop acc.length = k :: rest ∧ AccOk h i ks acc
+  | some (.mgetPool k v rest acc it) =>
+    it = iter ∧ ri = some r0 ∧ ks.drop acc.length = k :: rest ∧ AccOk h i ks (acc ++ [some v])
+  | some .idle =>
+    ∃ out, ri = some (.values out :: r0) ∧ out.length ≤ ks.length ∧
+      (iter = false → out = [] ∨ out.length = ks.length) ∧ AccOk h i ks out
+  | _ => False
+
+theorem MgetInv.mono {h : List (BState × Act)} {i : Nat} {ks : List Nat} {iter : Bool} {r0 : List Out}
+    {pc : Option CPc} {ri : Option (List Out)} (p : BState × Act) (hh : MgetInv h i ks iter r0 pc ri) :
+    MgetInv (p :: h) i ks iter r0 pc ri := by
+  unfold MgetInv at hh ⊢
+  split at hh
+  · exact hh
+  · exact ⟨hh.1, hh.2.1, hh.2.2.1, hh.2.2.2.mono p⟩
+  · exact ⟨hh.1, hh.2.1, hh.2.2.1, hh.2.2.2.mono p⟩
+  · obtain ⟨out, a, b, c, d⟩ := hh
+    exact ⟨out, a, b, c, d.mono p⟩
+  · exact hh.elim
+
+theorem drop_succ_of_drop_cons {ks : List Nat} {n k : Nat} {rest : List Nat} (h : ks.drop n = k :: rest) :
+    ks.drop (n + 1) = rest ∧ ks[n]? = some k ∧ n < ks.length := by
+  have hlt : n < ks.length := by
+    rcases Nat.lt_or_ge n ks.length with h' | h'
+    · exact h'
+    · rw [List.drop_eq_nil_of_le h'] at h; cases h
+  refine ⟨?_, ?_, hlt⟩
+  · rw [← List.drop_drop, h]; rfl
+  · have := List.getElem?_drop (xs := ks) (i := n) (j := 0)
+    rw [h] at this
+    simpa using this.symm
+
+/-- `mgetNext` keeps the position invariant: given results `acc` justified by the history and `rest` the keys after
+    them, the read either returns (results justified; `multi_get` pads with `none`s up to one answer per key) or
+    stands at the lookup of the next key -/
+theorem mgetInv_mgetNext {h : List (BState × Act)} {i : Nat} {ks : List Nat} {iter : Bool} {r0 : List Out}
+    (bX : BState) (rest : List Nat) (acc : List (Option Nat)) (hi : i < bX.cl.length) (hr : bX.res[i]? = some r0)
+    (hd : ks.drop acc.length = rest) (hle : acc.length ≤ ks.length) (hok : AccOk h i ks acc) :
+    MgetInv h i ks iter r0 ((mgetNext bX i rest acc iter).cl[i]?) ((mgetNext bX i rest acc iter).res[i]?) := by
+  have hri : i < bX.res.length := by
+    rcases Nat.lt_or_ge i bX.res.length with h' | h'
+    · exact h'
+    · rw [List.getElem?_eq_none h'] at hr; cases hr
+  have hgetD : bX.res.getD i [] = r0 := by
+    rw [List.getD_eq_getElem?_getD, hr]; rfl
+  have hlen : rest.length + acc.length = ks.length := by
+    have := congrArg List.length hd
+    rw [List.length_drop] at this
+    omega
+  have fin : ∀ out, out.length ≤ ks.length → (iter = false → out = [] ∨ out.length = ks.length) → AccOk h i ks out →
+      MgetInv h i ks iter r0 ((finishCall bX i (.values out)).cl[i]?) ((finishCall bX i (.values out)).res[i]?) := by
+    intro out h1 h2 h3
+    simp only [finishCall, List.getElem?_set_self hi, List.getElem?_set_self hri, hgetD]
+    exact ⟨out, rfl, h1, h2, h3⟩
+  unfold mgetNext
+  cases rest with
+  | nil =>
+    simp only [List.length_nil] at hlen
+    exact fin acc (by omega) (fun _ => Or.inr (by omega)) hok
+  | cons k rest' =>
+    simp only [List.length_cons] at hlen
+    simp only []
+    split
+    · cases iter with
+      | true => exact fin acc (by omega) (fun e => by cases e) hok
+      | false =>
+        refine fin _ ?_ (fun _ => Or.inr ?_) (hok.append_nones (k :: rest'))
+        · simp only [Bool.false_eq_true, if_false, List.length_append, List.length_map, List.length_cons]; omega
+        · simp only [Bool.false_eq_true, if_false, List.length_append, List.length_map, List.length_cons]; omega
+    · simp only [setClient, List.getElem?_set_self hi, hr]
+      exact ⟨rfl, rfl, hd, hok⟩
+
+/-- one step of any thread (other than a new `issue` by client `i`) keeps the position invariant of client `i`'s
+    multi-key read, with the step added to the history -/
+theorem mgetInv_step {h : List (BState × Act)} {i : Nat} {ks : List Nat} {iter : Bool} {r0 : List Out}
+    {b b' : BState} {a : Act} {o o' : Oracle} (hinv : MgetInv h i ks iter r0 b.cl[i]? b.res[i]?)
+    (hs : stepB b a o = .ok (b', o')) (hno : ∀ r, a ≠ .issue i r) :
+    MgetInv ((b, a) :: h) i ks iter r0 b'.cl[i]? b'.res[i]? := by
+  by_cases ha : a = .client i
+  · subst ha
+    simp only [stepB] at hs
+    cases hpc : b.cl[i]? with
+    | none => rw [hpc] at hinv; exact hinv.elim
+    | some pc =>
+      have hi : i < b.cl.length := by
+        rcases Nat.lt_or_ge i b.cl.length with h' | h'
+        · exact h'
+        · rw [List.getElem?_eq_none h'] at hpc; cases hpc
+      rw [hpc] at hinv
+      cases pc with
+      | idle => simp [clientAct, hpc] at hs
+      | start r =>
+        cases r with
+        | mget ks' it =>
+          obtain ⟨rfl, rfl, hr⟩ := hinv
+          simp only [clientAct, hpc] at hs
+          split at hs
+          · simp only [Except.ok.injEq, Prod.mk.injEq] at hs; obtain ⟨rfl, rfl⟩ := hs
+            have hri : i < b.res.length := by
+              rcases Nat.lt_or_ge i b.res.length with h' | h'
+              · exact h'
+              · rw [List.getElem?_eq_none h'] at hr; cases hr
+            have hgetD : b.res.getD i [] = r0 := by
+              rw [List.getD_eq_getElem?_getD, hr]; rfl
+            simp only [finishCall, List.getElem?_set_self hi, List.getElem?_set_self hri, hgetD]
+            exact ⟨[], rfl, Nat.zero_le _, fun _ => Or.inl rfl, AccOk.nil _ _ _⟩
+          · simp only [Except.ok.injEq, Prod.mk.injEq] at hs; obtain ⟨rfl, rfl⟩ := hs
+            exact mgetInv_mgetNext b ks' [] hi hr rfl (Nat.zero_le _) (AccOk.nil _ _ _)
+        | _ => exact hinv.elim
+      | mgetStore k rest acc it =>
+        obtain ⟨rfl, hr, hd, hok⟩ := hinv
+        obtain ⟨hd1, hk, hlt⟩ := drop_succ_of_drop_cons hd
+        rcases (C02_layerB_mget_store hpc hs).1 with ⟨e, he, hal, hcl, hres⟩ | ⟨_, rfl⟩
+        · rw [hcl, hres, List.getElem?_set_self hi, hr]
+          refine ⟨rfl, rfl, hd, ?_⟩
+          intro j v hj
+          by_cases hjl : j < acc.length
+          · rw [List.getElem?_append_left hjl] at hj
+            exact (hok.mono _) j v hj
+          · have hje : j = acc.length := by
+              rcases Nat.lt_or_ge acc.length j with h' | h'
+              · rw [List.getElem?_eq_none (by simp; omega)] at hj; cases hj
+              · omega
+            subst hje
+            simp only [List.getElem?_append_right (Nat.le_refl _), Nat.sub_self, List.getElem?_cons_zero,
+              Option.some.injEq] at hj
+            subst hj
+            exact ⟨k, hk, (b, .client i), List.mem_cons_self, rfl, rest, acc, it, hpc, rfl, e, he, hal, rfl⟩
+        · exact mgetInv_mgetNext _ rest (acc ++ [none]) hi hr (by simpa using hd1) (by simp; omega)
+            ((hok.mono _).snoc_none)
+      | mgetPool k v rest acc it =>
+        obtain ⟨rfl, hr, hd, hok⟩ := hinv
+        obtain ⟨hd1, hk, hlt⟩ := drop_succ_of_drop_cons hd
+        obtain ⟨g1, hp, rfl⟩ := C02_layerB_mget_pool hpc hs
+        exact mgetInv_mgetNext _ rest (acc ++ [some v]) hi hr (by simpa using hd1) (by simp; omega) (hok.mono _)
+      | _ => exact hinv.elim
+  · rw [other_threads_keep_pc hs ha hno, other_threads_keep_res hs ha]
+    exact hinv.mono _
+
+/-- the position invariant holds along every run from the issue of the call on -/
+theorem mgetInv_run {b0 b : BState} {h : List (BState × Act)} {i : Nat} {ks : List Nat} {iter : Bool}
+    (hrun : RunH b0 h b) (hstart : b0.cl[i]? = some (.start (.mget ks iter))) (hres : i < b0.res.length)
+    (hno : ∀ p ∈ h, ∀ r, p.2 ≠ .issue i r) :
+    MgetInv h i ks iter (b0.res.getD i []) b.cl[i]? b.res[i]? := by
+  induction hrun with
+  | nil =>
+    rw [hstart]
+    refine ⟨rfl, rfl, ?_⟩
+    rw [List.getD_eq_getElem?_getD, List.getElem?_eq_getElem hres]; rfl
+  | step hprev hs ih =>
+    exact mgetInv_step (ih (fun p hp => hno p (List.mem_cons_of_mem _ hp)))
+      hs (fun r => hno _ List.mem_cons_self r)
+
+/-- **C02 for a whole multi-key read, along every interleaving.**  Client `i` has issued `mget ks iter`
+    (`multi_get`: `iter = false`; the iterators: `iter = true`) in `b0`; `h` is ANY history of actions of any threads
+    from there (client `i` issuing nothing new) to a state `b` in which client `i` is idle again.  Then the call has
+    recorded `.values out` where: `out` has at most one entry per key (for `multi_get`: exactly one, unless the call
+    was refused outright because the flag was already set at its first action), and EVERY value `out[j] = some v` is
+    the value of an entry that the store held for the `j`-th key `ks[j]` — and that was alive — at the instant of
+    that key's own `store.get` action of this call (`MgetHit`): never another key's value, never a value from another
+    instant than that key's lookup, whatever the other threads did before, between and after. -/
+theorem C02_layerB_mget_current {b0 b : BState} {h : List (BState × Act)} {i : Nat} {ks : List Nat} {iter : Bool}
+    (hrun : RunH b0 h b) (hstart : b0.cl[i]? = some (.start (.mget ks iter))) (hres : i < b0.res.length)
+    (hno : ∀ p ∈ h, ∀ r, p.2 ≠ .issue i r) (hidle : b.cl[i]? = some .idle) :
+    ∃ out, b.res[i]? = some (.values out :: b0.res.getD i []) ∧ out.length ≤ ks.length ∧
+      (iter = false → out = [] ∨ out.length = ks.length) ∧
+      ∀ j v, out[j]? = some (some v) → ∃ k, ks[j]? = some k ∧ MgetHit h i j k v := by
+  have key := mgetInv_run hrun hstart hres hno
+  rw [hidle] at key
+  exact key
+
 /-! ## C13  shutdown — at action granularity
 
   `CacheD::shutdown` is eleven atomic actions of the calling client (`shutCas` … `shutTtlClear`); the worker, the
@@ -947,9 +1356,11 @@ theorem reach_runB {cfg : Cfg} {now : Nat} {seeds : List Nat} {clients : Nat} :
       exact ih (.step hr hs) h
     · cases h
 
-/-- what a request issued after the flag is set returns: `Err(CommandSendError)` for the writes, `None` for the reads -/
+/-- what a request issued after the flag is set returns: `Err(CommandSendError)` for the writes, `None` for the reads,
+    no value at all for the multi-key reads (`multi_get` and its iterators) -/
 def refusal : Req → Out
   | .get _ | .getRef _ => .value none
+  | .mget _ _ => .values []
   | _ => .err
 
 /-- `finishCall` returns the call of client `i` and touches nothing else. -/
@@ -961,7 +1372,8 @@ theorem finishCall_frame (b : BState) (i : Nat) (out : Out) :
   ⟨rfl, rfl, rfl, rfl, rfl, rfl, rfl, rfl, rfl⟩
 
 /-- C13 (refusal): once the flag is set, the FIRST action of every new request other than `total_weight_used` and
-    `shutdown` finishes the call — with `Err` (put, delete, put_or_update) or `None` (get, get_ref) — consumes no
+    `shutdown` finishes the call — with `Err` (put, delete, put_or_update), `None` (get, get_ref) or no values at all
+    (multi_get and the multi-get iterators) — consumes no
     oracle value and changes nothing else (`finishCall_frame`): no store, admission, queue or lock is touched. -/
 theorem C13_layerB_refuses {b : BState} {i : Nat} {r : Req} (o : Oracle) (hs : b.g.shutting = true)
     (hpc : b.cl[i]? = some (.start r)) (h1 : r ≠ .weight) (h2 : r ≠ .shutdown) :
@@ -978,6 +1390,53 @@ theorem refusal_writes (k v : Nat) (w : Int) (ttl : Option Nat) (uv : Option Nat
   ⟨rfl, rfl, rfl⟩
 
 theorem refusal_reads (k : Nat) : refusal (.get k) = .value none ∧ refusal (.getRef k) = .value none := ⟨rfl, rfl⟩
+
+theorem refusal_mget (ks : List Nat) (iter : Bool) : refusal (.mget ks iter) = .values [] := rfl
+
+/-- C13 (a multi-key read that meets the flag): what `mgetNext` does once the flag is set — `multi_get` answers `None`
+    for every key still to come, the iterators stop after the results gathered so far; either way the call returns
+    at once and nothing else is touched (`finishCall_frame`): no further `store.get`, no further access record. -/
+theorem C13_layerB_mget_after_flag {b : BState} (i : Nat) (ks : List Nat) (acc : List (Option Nat)) (iter : Bool)
+    (hs : b.g.shutting = true) :
+    mgetNext b i ks acc iter =
+      finishCall b i (.values (if iter then acc else acc ++ ks.map (fun _ => none))) := by
+  cases ks with
+  | nil => cases iter <;> simp [mgetNext]
+  | cons k rest => simp [mgetNext, hs]
+
+/-- … a `multi_get` / multi-get iterator ISSUED after the flag is set is answered with no values by its first action;
+    no store lookup, no statistics, no access record, no oracle value. -/
+theorem C13_layerB_mget_refused {b : BState} {i : Nat} {ks : List Nat} {iter : Bool} (o : Oracle)
+    (hs : b.g.shutting = true) (hpc : b.cl[i]? = some (.start (.mget ks iter))) :
+    clientAct b i o = .ok (finishCall b i (.values []), o) :=
+  C13_layerB_refuses o hs hpc (fun h => by cases h) (fun h => by cases h)
+
+/-- … a multi-key read standing at a key's `store.get` when the flag is set still does that lookup (its flag check
+    lies behind it); on a miss it returns: `multi_get` with `None` for this and all remaining keys, an iterator with
+    the results so far and this key's `None`. -/
+theorem C13_layerB_mget_store_after_flag {b b' : BState} {i k : Nat} {ks : List Nat} {acc : List (Option Nat)}
+    {iter : Bool} {o o' : Oracle} (hs : b.g.shutting = true) (hpc : b.cl[i]? = some (.mgetStore k ks acc iter))
+    (h : clientAct b i o = .ok (b', o')) :
+    (∃ e, b.g.store.get? k = some e ∧ e.alive b.g.now = true ∧
+        b'.cl = b.cl.set i (.mgetPool k e.value ks acc iter) ∧ b'.res = b.res) ∨
+    b' = finishCall { b with g := { b.g with stats := { b.g.stats with misses := b.g.stats.misses + 1 } } } i
+          (.values (if iter then acc ++ [none] else (acc ++ [none]) ++ ks.map (fun _ => none))) := by
+  rcases (C02_layerB_mget_store hpc h).1 with hit | ⟨_, rfl⟩
+  · exact Or.inl hit
+  · exact Or.inr (C13_layerB_mget_after_flag i ks _ iter hs)
+
+/-- … and the `pool.add` of a hit that was already counted is still done (one access record), then the call returns:
+    `multi_get` with `None` for all remaining keys, an iterator with the results so far. -/
+theorem C13_layerB_mget_pool_after_flag {b b' : BState} {i k v : Nat} {ks : List Nat} {acc : List (Option Nat)}
+    {iter : Bool} {o o' : Oracle} (hs : b.g.shutting = true) (hpc : b.cl[i]? = some (.mgetPool k v ks acc iter))
+    (h : clientAct b i o = .ok (b', o')) :
+    ∃ g1, poolAdd b.g (b.g.cfg.hashOf k) o = .ok (g1, o') ∧
+      b' = finishCall { b with g := g1 } i
+            (.values (if iter then acc ++ [some v] else (acc ++ [some v]) ++ ks.map (fun _ => none))) := by
+  obtain ⟨g1, hp, rfl⟩ := C02_layerB_mget_pool hpc h
+  refine ⟨g1, hp, C13_layerB_mget_after_flag i ks _ iter ?_⟩
+  show g1.shutting = true
+  rw [poolAdd_frame hp]; exact hs
 
 /-- C13 (the flag is permanent): no action of any thread resets it … -/
 theorem C13_layerB_flag_permanent {b b' : BState} {a : Act} {o o' : Oracle} (h : stepB b a o = .ok (b', o'))
@@ -1052,6 +1511,8 @@ theorem ctrans_worker {b b' : BState} {i : Nat} (h : CTrans b i b') : b'.g.worke
   case getPool hp => rw [poolAdd_frame hp]; rfl
   case refPool hp => rw [poolAdd_frame hp]; rfl
   case shutLocal hg => rw [hg]; rfl
+  case mgetStep hg => rw [hg]; rfl
+  case mgetFin hg => rw [hg]; rfl
   case upAfterSame => rcases upAfterIndex_spec b i _ _ with ⟨_, h⟩ | ⟨_, _, h⟩ | h <;> rw [h] <;> rfl
   case upAfterPut id e uw _ _ _ =>
     rcases upAfterIndex_spec { b with g := ttlPut b.g id e } i id uw with ⟨_, h⟩ | ⟨_, _, h⟩ | h <;> rw [h] <;> rfl
@@ -1254,6 +1715,164 @@ example :
             | _ => false)
         | _ => false)
      | _ => false) = true := by decide
+
+/-- Non-vacuity of the multi-key C02 statements (`C02_layerB_mget_store`, `C02_layerB_mget_pool`,
+    `C02_layerB_mread_current`): client 1 runs `multi_get([1, 2])` while only key 1 is stored; after key 1 is done
+    (`store.get` picks up 100, `pool.add` records it) client 0 and the worker put key 2 — IN BETWEEN the two keys of the
+    read — so the read's second `store.get` hits the new entry, and the call returns `[Some(100), Some(200)]`. -/
+def mgetRun : List (Act × Oracle) :=
+  call 0 (.putW 1 100 5 none) 4 ++ workerN 6 ++
+  [(.issue 1 (.mget [1, 2] false), noO), (.client 1, noO), (.client 1, noO)]
+
+example :
+    (match runB (BState.init cfgEx 0 [1, 2, 3, 4] 2) mgetRun with
+     | .ok b =>
+       (match b.cl[1]? with
+        | some (CPc.mgetPool k v ks acc iter) => decide (k = 1 ∧ v = 100 ∧ ks = [2] ∧ acc = [] ∧ iter = false)
+        | _ => false) &&
+       (match runB b [(.client 1, { pool := [0] })] with
+        | .ok b1 =>
+          (match b1.cl[1]? with
+           | some (CPc.mgetStore k ks acc iter) => decide (k = 2 ∧ ks = [] ∧ acc = [some 100] ∧ iter = false)
+           | _ => false) &&
+          -- another client and the worker move between the two keys of the read
+          (match runB b1 (call 0 (.putW 2 200 3 none) 4 ++ workerN 6 ++ [(.client 1, noO)]) with
+           | .ok b2 =>
+             (match b2.cl[1]? with
+              | some (CPc.mgetPool k v ks acc iter) => decide (k = 2 ∧ v = 200 ∧ ks = [] ∧ acc = [some 100] ∧ iter = false)
+              | _ => false) &&
+             (match runB b2 [(.client 1, { pool := [0] })] with
+              | .ok b3 =>
+                (match b3.res[1]?, b3.cl[1]? with
+                 | some [Out.values vs], some CPc.idle => decide (vs = [some 100, some 200])
+                 | _, _ => false) && decide (b3.g.stats.hits = 2 ∧ b3.g.stats.misses = 0)
+              | _ => false)
+           | _ => false) &&
+          -- without the interleaved put the second key is a miss
+          (match runB b1 [(.client 1, noO)] with
+           | .ok b2 =>
+             (match b2.res[1]?, b2.cl[1]? with
+              | some [Out.values vs], some CPc.idle => decide (vs = [some 100, none])
+              | _, _ => false) && decide (b2.g.stats.hits = 1 ∧ b2.g.stats.misses = 1)
+           | _ => false)
+        | _ => false)
+     | _ => false) = true := by decide
+
+/-- Non-vacuity of `C13_layerB_mget_after_flag` / `C13_layerB_mget_pool_after_flag`: the same read, but client 0's
+    `shutdown()` sets the flag while the read stands at the `pool.add` of key 1: `multi_get` returns
+    `[Some(100), None]` without looking key 2 up, the iterator (`iter = true`) returns `[Some(100)]`; and a read issued
+    after the flag is set returns no values (`C13_layerB_mget_refused`). -/
+example :
+    (match runB (BState.init cfgEx 0 [1, 2, 3, 4] 2) (mgetRun ++ call 0 .shutdown 2) with
+     | .ok b =>
+       b.g.shutting &&
+       (match runB b [(.client 1, { pool := [0] })] with
+        | .ok b1 =>
+          (match b1.res[1]?, b1.cl[1]? with
+           | some [Out.values vs], some CPc.idle => decide (vs = [some 100, none])
+           | _, _ => false) && decide (b1.g.stats.hits = 1 ∧ b1.g.stats.misses = 0) &&
+          (match runB b1 (call 1 (.mget [1, 2] true) 1) with
+           | .ok b2 => (match b2.res[1]? with
+               | some (Out.values vs :: _) => decide (vs = [])
+               | _ => false)
+           | _ => false)
+        | _ => false)
+     | _ => false) = true := by decide
+
+example :
+    (match runB (BState.init cfgEx 0 [1, 2, 3, 4] 2)
+        (call 0 (.putW 1 100 5 none) 4 ++ workerN 6 ++
+         [(.issue 1 (.mget [1, 2] true), noO), (.client 1, noO), (.client 1, noO)] ++ call 0 .shutdown 2 ++
+         [(.client 1, { pool := [0] })]) with
+     | .ok b =>
+       (match b.res[1]?, b.cl[1]? with
+        | some [Out.values vs], some CPc.idle => decide (vs = [some 100])
+        | _, _ => false)
+     | _ => false) = true := by decide
+
+/-- runs a list of actions and collects the history -/
+def histOf : BState → List (Act × Oracle) → List (BState × Act) → Except String (List (BState × Act) × BState)
+  | b, [], h => .ok (h, b)
+  | b, (a, o) :: rest, h =>
+    match stepB b a o with
+    | .ok (b', _) => histOf b' rest ((b, a) :: h)
+    | .error m => .error m
+
+def isIssueOf (i : Nat) : Act → Bool
+  | .issue j _ => j == i
+  | _ => false
+
+theorem runH_histOf {b0 : BState} : ∀ (l : List (Act × Oracle)) {b b' : BState} {h h' : List (BState × Act)},
+    RunH b0 h b → histOf b l h = .ok (h', b') → RunH b0 h' b' := by
+  intro l
+  induction l with
+  | nil =>
+    intro b b' h h' hr hh
+    simp only [histOf, Except.ok.injEq, Prod.mk.injEq] at hh
+    obtain ⟨rfl, rfl⟩ := hh
+    exact hr
+  | cons x l ih =>
+    intro b b' h h' hr hh
+    obtain ⟨a, o⟩ := x
+    simp only [histOf] at hh
+    split at hh
+    · rename_i b1 o1 hs
+      exact ih (.step hr hs) hh
+    · cases hh
+
+theorem histOf_noIssue (i : Nat) : ∀ (l : List (Act × Oracle)) {b b' : BState} {h h' : List (BState × Act)},
+    (∀ p ∈ h, isIssueOf i p.2 = false) → l.all (fun x => !isIssueOf i x.1) = true → histOf b l h = .ok (h', b') →
+    ∀ p ∈ h', ∀ r, p.2 ≠ .issue i r := by
+  intro l
+  induction l with
+  | nil =>
+    intro b b' h h' hh _ hr p hp r e
+    simp only [histOf, Except.ok.injEq, Prod.mk.injEq] at hr
+    obtain ⟨rfl, rfl⟩ := hr
+    have := hh p hp
+    rw [e] at this
+    simp [isIssueOf] at this
+  | cons x l ih =>
+    intro b b' h h' hh hl hr
+    obtain ⟨a, o⟩ := x
+    simp only [List.all_cons, Bool.and_eq_true, Bool.not_eq_true'] at hl
+    simp only [histOf] at hr
+    split at hr
+    · refine ih ?_ hl.2 hr
+      intro p hp
+      rcases List.mem_cons.mp hp with rfl | hp
+      · exact hl.1
+      · exact hh p hp
+    · cases hr
+
+/-- key 1 is stored, client 1 has issued `multi_get([1, 2])` -/
+def mgetB0 : BState :=
+  match runB (BState.init cfgEx 0 [1, 2, 3, 4] 2)
+      (call 0 (.putW 1 100 5 none) 4 ++ workerN 6 ++ [(.issue 1 (.mget [1, 2] false), noO)]) with
+  | .ok b => b
+  | .error _ => BState.init cfgEx 0 [] 0
+
+/-- client 1 reads key 1; client 0 and the worker put key 2; client 1 reads key 2 -/
+def mgetActs : List (Act × Oracle) :=
+  [(.client 1, noO), (.client 1, noO), (.client 1, { pool := [0] })] ++ call 0 (.putW 2 200 3 none) 4 ++ workerN 6 ++
+  [(.client 1, noO), (.client 1, { pool := [0] })]
+
+/-- Non-vacuity of `C02_layerB_mget_current`: an interleaving as a history — client 1's `multi_get([1, 2])`, with
+    client 0 and the worker putting key 2 BETWEEN the two keys of the read — satisfies every hypothesis, and the call
+    returns `[Some(100), Some(200)]`. -/
+theorem C02_layerB_mget_current_witness :
+    ∃ b0 h b, RunH b0 h b ∧ b0.cl[1]? = some (.start (.mget [1, 2] false)) ∧ 1 < b0.res.length ∧
+      (∀ p ∈ h, ∀ r, p.2 ≠ .issue 1 r) ∧ b.cl[1]? = some .idle ∧
+      (match b.res[1]? with
+       | some [Out.values vs] => decide (vs = [some 100, some 200])
+       | _ => false) = true := by
+  have hh : ∃ h b, histOf mgetB0 mgetActs [] = .ok (h, b) ∧ b.cl[1]? = some .idle ∧
+      (match b.res[1]? with
+       | some [Out.values vs] => decide (vs = [some 100, some 200])
+       | _ => false) = true := ⟨_, _, rfl, rfl, by decide⟩
+  obtain ⟨h, b, hrun, hidle, hout⟩ := hh
+  exact ⟨mgetB0, h, b, runH_histOf _ (.nil _) hrun, rfl, by decide,
+    histOf_noIssue 1 _ (fun p hp => by cases hp) (by decide) hrun, hidle, hout⟩
 
 /-- Non-vacuity of `C01_layerB_bound_partial'`, `C05_layerB_at_rest`: a `ReachSafe` state that is at rest. -/
 example : ∃ b, ReachSafe cfgEx 0 [1, 2, 3, 4] 2 b ∧ pendingAdd b = 0 ∧ pendingSub b = 0 :=
